@@ -1,17 +1,23 @@
 #!/usr/bin/env python3
 """MANIFEST.setup_cmd: offline sanity of the tool chain the checks need. Builds nothing persistent: every check rebuilds
-its harnesses from /repo's current working tree in its own directory under /verif/.work and removes the build output."""
+its harnesses / MIR dump from /repo's current working tree in its own directory under /verif/.work and removes the build output."""
 import shutil, subprocess, sys
 ok = True
-for tool in ('cargo', 'cbmc', 'goto-instrument', 'python3'):
+for tool in ('cargo', 'cbmc', 'goto-instrument', 'python3', 'python3-vt'):
     if not shutil.which(tool):
         print('missing tool:', tool); ok = False
 try:
     out = subprocess.run(['cargo', 'kani', '--version'], capture_output=True, text=True, timeout=120)
     print(out.stdout.strip() or out.stderr.strip())
     ok = ok and out.returncode == 0
+    out = subprocess.run(['cargo', '+nightly', '--version'], capture_output=True, text=True, timeout=120)
+    print(out.stdout.strip() or out.stderr.strip())
+    ok = ok and out.returncode == 0
+    out = subprocess.run(['python3-vt', '-c', 'import z3; print("z3", z3.get_version_string())'], capture_output=True, text=True, timeout=120)
+    print(out.stdout.strip() or out.stderr.strip())
+    ok = ok and out.returncode == 0
 except Exception as e:
-    print('cargo kani not runnable:', e); ok = False
+    print('tool not runnable:', e); ok = False
 sys.path.insert(0, '/verif/tools')
 import regex_dfa
 n, bad = regex_dfa.selftest(r'0[xX][0-9a-fA-F]+')
